@@ -120,6 +120,21 @@ def clause_e(repo, chk, res):
                     if not ok:
                         chk.violation("E-guard", key, "unguarded:%s.%s" % (recv, attr), "`%s.%s` is read without a guard although the same function tests hasattr(%s, %r) elsewhere: for minimisers whose result has no %s (scipy CG, Nelder-Mead) the fit ends in AttributeError" % (recv, attr, recv, attr, attr), file=FIT, line=x.lineno)
     chk.require_count("E-guard", 2)
+    # post-fit standardisation skips every member of a tie group (not only the non-head members)
+    chk.rule("E-std", "VarsManager.standard_complex (run by fit_scipy after min_nll is taken) skips a complex variable whose r or phase component occurs anywhere in a tie group: membership is tested against the whole group, not a slice of it")
+    sc = repo.fn("tf_pwa/variable.py::VarsManager.standard_complex")
+    tests = []
+    for lp in [x for x in walk_local(sc.node) if isinstance(x, ast.For) and "same_list" in norm_text(x.iter)]:
+        g = norm_text(lp.target)
+        for c in [y for b in lp.body for y in ast.walk(b) if isinstance(y, ast.Compare) and isinstance(y.ops[0], ast.In)]:
+            tests.append((norm_text(c.comparators[0]), g, c))
+    ok = bool(tests) and all(t[0] == t[1] for t in tests)
+    chk.instance("E-std", "standard_complex tests tie membership against %s: %s" % (sorted({t[0] for t in tests}), ok))
+    if not tests:
+        raise AnalysisError("standard_complex: tie-group membership tests not found")
+    if not ok:
+        b = [t for t in tests if t[0] != t[1]][0]
+        chk.violation("E-std", sc.key, "tie-slice", "tie membership is tested against `%s` instead of the whole group `%s`: the head of a tie group is standardised alone (shared radius flipped, only its own phase shifted), so after the fit the model no longer sits at the reported minimum" % (b[0], b[1]), file="tf_pwa/variable.py", line=b[2].lineno)
 
 
 VAR_FILE = "tf_pwa/variable.py"
